@@ -4,10 +4,10 @@ package main
 
 import (
 	"encoding/json"
-	"os/exec"
 	"flag"
 	"fmt"
 	"os"
+	"os/exec"
 	"path/filepath"
 	"sort"
 	"strconv"
@@ -339,12 +339,17 @@ func cmdCheck(args []string) int {
 	exit := 0
 	violations := 0
 	var knownLines []string
+	var knownRefuted []string
 	replayDir := filepath.Join(verifRoot, "out", "replay", prop)
 	os.RemoveAll(replayDir)
 	os.MkdirAll(replayDir, 0o755)
 	for i, o := range failed {
 		if kf := isKnown(o.Name); kf != nil {
 			knownLines = append(knownLines, fmt.Sprintf("KNOWN-FINDING: property=%s %s [%s]", prop, kf.What, o.Name))
+			// an obligation refuted by a recorded defect is reported as that finding; it is not part of
+			// what this run claims to have proved
+			total--
+			knownRefuted = append(knownRefuted, o.Name)
 			continue
 		}
 		violations++
@@ -482,19 +487,20 @@ func cmdCheck(args []string) int {
 		"property_id": prop, "tier": *tier, "seed": seed, "level": "proof",
 		"coverage": map[string]interface{}{
 			"obligations": total, "discharged": discharged,
-			"checker_cmd":  fmt.Sprintf("/verif/bin/check %s --tier %s", prop, *tier),
-			"trusted_base": trustedBase,
-			"functions_under_contract": reports,
-			"solver_time":              stimes,
-			"samples":                  samples,
-			"registry_obligations":     len(reg.Obligations),
-			"missing_from_registry":    missing,
-			"known_findings_printed":   knownLines,
-			"integer_mode":             "bit-vector (machine arithmetic, wrap-around)",
-			"vacuity_covers_inconclusive": coverIncon,
-			"integer_lemmas_proved":       mathOK,
-			"bounded_stand_ins":           bounded,
-			"bounded_note":                "bounded stand-ins execute the real code exhaustively up to the stated bound; they are NOT counted in obligations/discharged",
+			"checker_cmd":                           fmt.Sprintf("/verif/bin/check %s --tier %s", prop, *tier),
+			"trusted_base":                          trustedBase,
+			"functions_under_contract":              reports,
+			"solver_time":                           stimes,
+			"samples":                               samples,
+			"registry_obligations":                  len(reg.Obligations),
+			"missing_from_registry":                 missing,
+			"known_findings_printed":                knownLines,
+			"obligations_refuted_by_known_findings": knownRefuted,
+			"integer_mode":                          "bit-vector (machine arithmetic, wrap-around)",
+			"vacuity_covers_inconclusive":           coverIncon,
+			"integer_lemmas_proved":                 mathOK,
+			"bounded_stand_ins":                     bounded,
+			"bounded_note":                          "bounded stand-ins execute the real code exhaustively up to the stated bound; they are NOT counted in obligations/discharged",
 		},
 		"assumptions": assumptions,
 		"wall_s":      round3(time.Since(t0).Seconds()),
